@@ -10,6 +10,7 @@ CONSTANTS
   KindSet = {"good", "dup", "good_s2"}
   KwargsSet = {"empty"}
   UseKeySet = {FALSE}
+  NFiles = 1
   MaxRecs = 2
   Threads = 2
 INVARIANT Inv_C12_Total_NoRaise
